@@ -5,6 +5,7 @@ import NmVerif.Simd.EnumLemmas
 import NmVerif.Simd.HorizLemmas
 import NmVerif.Simd.VertLemmas
 import NmVerif.Simd.OuterLemmas
+import NmVerif.Simd.BinaryLemmas
 /-
   C12 — SIMD evaluation equals scalar evaluation for every size, shape and layout.
   Only property statements (+ non-vacuity examples, counterexamples of known findings) live here.
@@ -233,61 +234,64 @@ theorem binary2d_operand_offsets (N oc lr lc rr rc : Nat) (hN : 0 < N)
     (hl : OperandOK (binary2dShape N oc lr rr).1 oc lr lc) (hr : OperandOK (binary2dShape N oc lr rr).1 oc rr rc)
     (i : Nat) (hi : i < binary2dSize N oc lr rr) (j : Nat) (hj : j < stepLen N (binary2dAt N oc lr lc rr rc i).1) :
     laneOff (binary2dAt N oc lr lc rr rc i).2.1 j = bcastOff lr lc oc ((binary2dAt N oc lr lc rr rc i).1.off + j)
-    ∧ laneOff (binary2dAt N oc lr lc rr rc i).2.2 j = bcastOff rr rc oc ((binary2dAt N oc lr lc rr rc i).1.off + j) := by
-  unfold binary2dSize at hi
-  have hCs : 0 < (binary2dShape N oc lr rr).2 := by
-    rcases Nat.eq_zero_or_pos (binary2dShape N oc lr rr).2 with h | h
-    · rw [h] at hi; simp at hi
-    · exact h
-  have hsc : i % (oc / N + oc % N) < oc / N + oc % N := Nat.mod_lt _ hCs
-  have hrr : i / (oc / N + oc % N) < (binary2dShape N oc lr rr).1 :=
-    (Nat.div_lt_iff_lt_mul hCs).2 hi
-  have hi' : i = (i / (oc / N + oc % N)) * (oc / N + oc % N) + i % (oc / N + oc % N) := by
-    have := Nat.div_add_mod i (oc / N + oc % N); rw [Nat.mul_comm] at this; omega
-  generalize i / (oc / N + oc % N) = r at hrr hi'
-  generalize i % (oc / N + oc % N) = sc at hsc hi'
-  subst hi'
-  rw [binary2dAt_row _ _ _ _ _ _ _ _ hsc] at hj ⊢
-  have hout : (binary2d N r sc oc lr lc rr rc).1.off
-      = (if sc < oc / N then sc * N else oc / N * N + (sc - oc / N)) + r * oc := by
-    by_cases h : sc < oc / N
-    · rw [binary2d_out_packed _ _ _ _ _ _ _ _ h, if_pos h]
-    · rw [binary2d_out_scalar _ _ _ _ _ _ _ _ (by omega), if_neg h]
-  have hlen : stepLen N (binary2d N r sc oc lr lc rr rc).1 = (if sc < oc / N then N else 1) := by
-    by_cases h : sc < oc / N
-    · rw [binary2d_out_packed _ _ _ _ _ _ _ _ h, if_pos h]; simp [stepLen]
-    · rw [binary2d_out_scalar _ _ _ _ _ _ _ _ (by omega), if_neg h]; simp [stepLen, Tag.SCALAR, Tag.PACKED]
-  rw [hlen] at hj
-  have e : (if sc < oc / N then sc * N else oc / N * N + (sc - oc / N)) + r * oc + j
-      = (if sc < oc / N then sc * N else oc / N * N + (sc - oc / N)) + j + r * oc := by omega
-  rw [hout, e]
-  exact ⟨binary2dOperand_lane N r sc oc _ lr lc j hN hrr hsc hl hj,
-         binary2dOperand_lane N r sc oc _ rr rc j hN hrr hsc hr hj⟩
+    ∧ laneOff (binary2dAt N oc lr lc rr rc i).2.2 j = bcastOff rr rc oc ((binary2dAt N oc lr lc rr rc i).1.off + j) :=
+  binary2dAt_offsets N oc lr lc rr rc hN hl hr i hi j hj
 
 /-- the broadcast-rule offsets lie inside the operand buffer, and the written cells inside the output:
     with `binary2d_covers_once` / `binary2d_operand_offsets`, no step of the enumerator leaves a buffer -/
 theorem bcastOff_in_bounds (R oc rows cols o : Nat) (hoc : 0 < oc) (hok : OperandOK R oc rows cols)
-    (hrows : 0 < rows) (ho : o < R * oc) : bcastOff rows cols oc o < rows * cols := by
-  obtain ⟨hc, hrw, _⟩ := hok
-  unfold bcastOff
-  have hcols : 0 < cols := by rcases hc with h | h <;> omega
-  have h1 : (if rows = 1 then 0 else o / oc) < rows := by
-    by_cases h : rows = 1
-    · simp [h]
+    (hrows : 0 < rows) (ho : o < R * oc) : bcastOff rows cols oc o < rows * cols :=
+  bcastOff_lt R oc rows cols o hoc hok hrows ho
+
+/-- **SIMD binary with 2-d broadcasting = NumPy broadcasting by the scalar evaluator**, at evaluator level:
+    every lane count, every shape pair `(R|1, C|1)` (except a `(1,1)` operand under a multi-row result, `OperandOK`),
+    row-major operands; the result is `some _`: no load or store leaves a buffer. -/
+theorem simdBinary2d_eq_scalar (N : Nat) (hN : 0 < N) (packF : List α → List α → List β) (f : α → α → β)
+    (hpf : LaneWise2 N packF f) (a b : NDA α) (lr lc rr rc : Nat)
+    (ha : a.shape = [lr, lc]) (hb : b.shape = [rr, rc]) (hwa : a.WF) (hwb : b.WF)
+    (hra : a.colMajor = false) (hrb : b.colMajor = false)
+    (hlr : 0 < lr) (hlc : 0 < lc) (hrr : 0 < rr) (hrc : 0 < rc)
+    (hl : OperandOK (max lr rr) (max lc rc) lr lc) (hr : OperandOK (max lr rr) (max lc rc) rr rc)
+    (out : List β) (ho : out.length = max lr rr * max lc rc) :
+    simdBinary2d N packF f a.data b.data lr lc rr rc (max lc rc) out = scalarBinary2d f a b lr lc rr rc := by
+  have hR : (binary2dShape N (max lc rc) lr rr).1 = max lr rr := by
+    unfold binary2dShape
+    simp only
+    by_cases h : rr = 1
+    · rw [if_pos h, h]; omega
     · rw [if_neg h]
-      have : rows = R := by rcases hrw with h' | h'; exact h'; exact absurd h' h
-      rw [this]; exact (Nat.div_lt_iff_lt_mul hoc).2 ho
-  have h2 : (if cols = 1 then 0 else o % oc) < cols := by
-    by_cases h : cols = 1
-    · simp [h]
-    · rw [if_neg h]
-      have : cols = oc := by rcases hc with h' | h'; exact h'; exact absurd h' h
-      rw [this]; exact Nat.mod_lt _ hoc
-  generalize (if rows = 1 then 0 else o / oc) = a at h1
-  generalize (if cols = 1 then 0 else o % oc) = b at h2
-  have : (a + 1) * cols ≤ rows * cols := Nat.mul_le_mul_right cols h1
-  rw [Nat.succ_mul] at this
-  omega
+      rcases hr.2.1 with h' | h'
+      · exact h'
+      · exact absurd h' h
+  have hoc : 0 < max lc rc := by omega
+  have hla : a.data.length = lr * lc := by have : a.data.length = prod a.shape := hwa; rw [this, ha]; simp [prod]
+  have hlb : b.data.length = rr * rc := by have : b.data.length = prod b.shape := hwb; rw [this, hb]; simp [prod]
+  -- the scalar side: the list of broadcast cells
+  have hcells : ∀ k, k < max lr rr * max lc rc →
+      (bcastCell f a.data b.data lr lc rr rc (max lc rc) k).isSome := by
+    intro k hk
+    have h1 := bcastOff_lt (max lr rr) (max lc rc) lr lc k hoc hl hlr hk
+    have h2 := bcastOff_lt (max lr rr) (max lc rc) rr rc k hoc hr hrr hk
+    unfold bcastCell
+    rw [List.getElem?_eq_getElem (by omega), List.getElem?_eq_getElem (by omega)]
+    rfl
+  obtain ⟨res, hres, hlen, hcell⟩ := allSome_range _ _ hcells
+  have hscalar : scalarBinary2d f a b lr lc rr rc = some res := by
+    rw [← hres]
+    unfold scalarBinary2d
+    simp only
+    apply allSome_congr
+    intro k _
+    unfold bcastCell bcastOff NDA.get? NDA.offset NDA.stridesOf
+    rw [hra, hrb, ha, hb]
+    simp only [Bool.false_eq_true, if_false, strides, prod, computeOffset, Nat.mul_one, Nat.one_mul, Nat.add_zero]
+    rw [Nat.mul_comm lc, Nat.mul_comm rc]
+    cases a.data[(if lr = 1 then 0 else k / max lc rc) * lc + if lc = 1 then 0 else k % max lc rc]? <;>
+      cases b.data[(if rr = 1 then 0 else k / max lc rc) * rc + if rc = 1 then 0 else k % max lc rc]? <;> rfl
+  rw [hscalar]
+  exact simdBinary2d_eq_cells N hN packF f hpf a.data b.data lr lc rr rc (max lc rc) hoc hlr hrr
+    (by rw [hR]; exact hl) (by rw [hR]; exact hr) hla hlb res (by rw [hR]; exact hlen)
+    (by rw [hR]; exact hcell) out (by rw [hR]; exact ho)
 
 /-- known finding `binary.bcast-1x1`: a `(1,1)` rhs under a 2-row result is indexed by the row number:
     the model's evaluator leaves the operand buffer (`none`) where NumPy broadcasting reads element 0 -/
@@ -450,6 +454,10 @@ example : simdReduceHorizontal 4 (List.zipWith (· + ·)) (· + ·) (0 : Int) [1
 example : simdReduceVertical 4 (List.zipWith (· + ·)) (· + ·) [1,2,3,4,5,6,7,8,9,10,11,12] [1,6] [2,6] 0 (List.replicate 6 (0 : Int))
     = some [8,10,12,14,16,18] := by decide
 example : outerSize 4 [2,3,6] [2] [3,6] = 12 ∧ (outerAt 4 [2,3,6] [2] [3,6] 3).1 = ⟨Tag.PAD 2, 10⟩ := by decide
+example : OperandOK 3 5 1 5 ∧ OperandOK 3 5 3 1 ∧ ¬ OperandOK 3 5 1 1 := by
+  refine ⟨⟨Or.inl rfl, Or.inr rfl, by omega⟩, ⟨Or.inr rfl, Or.inl rfl, by omega⟩, fun h => h.2.2 ⟨rfl, rfl, by omega⟩⟩
+example : simdBinary2d 4 (List.zipWith (· + ·)) (· + ·) [1,2,3,4,5] [10,20,30] 1 5 3 1 5 (List.replicate 15 (0 : Int))
+    = some [11,12,13,14,15,21,22,23,24,25,31,32,33,34,35] := by decide
 example : simdReduceAll 4 (List.zipWith (· + ·)) (· + ·) (0 : Int) ⟨[2,5], false, [1,2,3,4,5,6,7,8,9,10]⟩ = some 55 := by decide
 
 end NmVerif.Props.C12
